@@ -20,6 +20,7 @@ use crate::faulty::FaultyStore;
 const KS: &str = "ks";
 const KS2: &str = "ks-two";
 const KS3: &str = "ks-late";
+const KS_BULK: &str = "ks-bulk";
 
 struct Member {
     id: u8,
@@ -129,6 +130,7 @@ pub async fn record() {
         let n = members.len();
         let issuer = &members[0];
         let handle = issuer.store.handle_with_keyspace(KS);
+        let handle_bulk = issuer.store.handle_with_keyspace(KS_BULK);
         let others: Vec<usize> = (1..n).collect();
         let mut pending_later: Vec<(u64, bool)> = vec![];
         // every level x kind x subset of refusing replicas; then, for a few level/kind combinations, one replica that
@@ -157,8 +159,20 @@ pub async fn record() {
         for (lv, kind, failing, slow) in specs {
             {
                 {
-                    let ids: Vec<u64> = if kind.ends_with("many") { vec![next_id, next_id + 1] } else { vec![next_id] };
-                    next_id += 2;
+                    // bulk calls name two documents; with every replica healthy, the bulk calls at All / One name 5 001 / 1 025
+                    // (one request, one batch, one reply per replica - whatever its size)
+                    let many = match (kind.ends_with("many"), failing.is_empty() && slow.is_empty(), lv) {
+                        (true, true, "All") => 5_001,
+                        (true, true, "One") => 1_025,
+                        (true, _, _) => 2,
+                        _ => 1,
+                    };
+                    let ids: Vec<u64> = (next_id..next_id + many).collect();
+                    // the large calls have a keyspace of their own (the hooks do not log the states of large actors, and the
+                    // ordinary keyspace's actors are to stay within what the trace specification is shown)
+                    let ksn = if many > 2 { KS_BULK } else { KS };
+                    let handle = if many > 2 { &handle_bulk } else { &handle };
+                    next_id += many + (many % 2);
                     // every other bulk write names its first document twice (an earlier draft first): all of one call's
                     // documents carry one timestamp, and the version the issuer ends with is the one the replicas must hold
                     let repeated = kind == "put_many" && (next_id / 2) % 2 == 0;
@@ -192,7 +206,7 @@ pub async fn record() {
                     let mut local_ts = vec![];
                     let mut local_dig = vec![];
                     for id in &ids {
-                        match held(issuer, *id).await {
+                        match held_full(issuer, ksn, *id).await {
                             Some((ts, tomb, dig)) if tomb == is_del => {
                                 local_ts.push(ts);
                                 local_dig.push(dig);
@@ -207,7 +221,7 @@ pub async fn record() {
                     for (oi, m) in members.iter().enumerate().skip(1) {
                         let mut all = true;
                         for (j, id) in ids.iter().enumerate() {
-                            match held(m, *id).await {
+                            match held_full(m, ksn, *id).await {
                                 // the mutation (the very bytes the issuer holds), or a newer one for the same id
                                 Some((ts, tomb, dig)) if (ts == local_ts[j] && tomb == is_del && dig == local_dig[j]) || ts > local_ts[j] => {},
                                 _ => all = false,
